@@ -3,6 +3,8 @@ package simhost
 import (
 	"fmt"
 	"sort"
+	"strconv"
+	"strings"
 	"time"
 
 	dragonboat "github.com/lni/dragonboat/v4"
@@ -430,4 +432,117 @@ func (s *Sim) shardLoaded(h *Host) bool {
 	}
 	_, ok := h.nh.VerifGetReplica(shardID)
 	return ok
+}
+
+const crashMarker = "verif.crashmarker"
+
+// markSnapshotDirs is called right after a crash: every directory that
+// survived in the replica's snapshot directory gets a (durable) marker file, so
+// that the start-up cleanup can be judged on exactly what the crash left
+// behind, not on what the new incarnation creates meanwhile.
+func (s *Sim) markSnapshotDirs(h *Host) {
+	if h.snapDir == "" {
+		return
+	}
+	mem := h.disk.Mem()
+	names, err := mem.List(h.snapDir)
+	if err != nil {
+		return
+	}
+	sort.Strings(names)
+	for _, n := range names {
+		p := mem.PathJoin(h.snapDir, n)
+		st, err := mem.Stat(p)
+		if err != nil || !st.IsDir() {
+			continue
+		}
+		f, err := mem.Create(mem.PathJoin(p, crashMarker))
+		if err != nil {
+			continue
+		}
+		_ = f.Sync()
+		_ = f.Close()
+		if d, err := mem.OpenDir(p); err == nil {
+			_ = d.Sync()
+			_ = d.Close()
+		}
+		switch {
+		case strings.HasSuffix(n, ".generating"):
+			s.ctx.Count("probe.crash_left_generating_dir", 1)
+		case strings.HasSuffix(n, ".receiving"):
+			s.ctx.Count("probe.crash_left_receiving_dir", 1)
+		default:
+			if _, err := mem.Stat(mem.PathJoin(p, "dragonboat.snapshot.message")); err == nil {
+				s.ctx.Count("probe.crash_left_flagged_dir", 1)
+			}
+		}
+	}
+}
+
+// checkSnapshotDir is the C16 oracle evaluated when the start-up path of a
+// restarted replica has run (end of the boot task): of the directories the
+// crash left behind only the snapshot recorded in the log store may remain,
+// without its flag file; that recorded snapshot exists with a file; temporary
+// and orphaned directories are gone.
+func (s *Sim) checkSnapshotDir(h *Host) {
+	if !h.crashedBefore || h.nh == nil {
+		return
+	}
+	dir := h.nh.VerifSnapshotDir(shardID, h.replicaID)
+	h.snapDir = dir
+	rec, err := h.nh.VerifLogDB().GetSnapshot(shardID, h.replicaID)
+	if err != nil {
+		return
+	}
+	s.ctx.Count("probe.snapshot_dir_checked", 1)
+	mem := h.disk.Mem()
+	names, err := mem.List(dir)
+	if err != nil {
+		return
+	}
+	sort.Strings(names)
+	foundRecorded := false
+	for _, n := range names {
+		p := mem.PathJoin(dir, n)
+		st, err := mem.Stat(p)
+		if err != nil || !st.IsDir() {
+			continue
+		}
+		idx, perr := strconv.ParseUint(strings.TrimPrefix(n, "snapshot-"), 16, 64)
+		if perr == nil && !pb.IsEmptySnapshot(rec) && idx == rec.Index {
+			foundRecorded = true
+		}
+		marker := mem.PathJoin(p, crashMarker)
+		if _, err := mem.Stat(marker); err != nil {
+			continue // created by the new incarnation
+		}
+		switch {
+		case strings.HasSuffix(n, ".generating") || strings.HasSuffix(n, ".receiving"):
+			s.ctx.Violate("C16", "temp-dir-survived", "replica %d restarted and the temporary snapshot directory %s left by the crash is still present", h.replicaID, n)
+		case perr != nil:
+			// not a snapshot directory name we know
+		case pb.IsEmptySnapshot(rec) || idx != rec.Index:
+			s.ctx.Violate("C16", "unrecorded-snapshot-survived", "replica %d restarted and snapshot directory %s left by the crash is still present although the log store records snapshot %d", h.replicaID, n, rec.Index)
+		default:
+			if _, err := mem.Stat(mem.PathJoin(p, "dragonboat.snapshot.message")); err == nil {
+				s.ctx.Violate("C16", "flag-file-survived", "replica %d restarted and the recorded snapshot directory %s still carries its flag file", h.replicaID, n)
+			}
+		}
+		_ = mem.Remove(marker)
+	}
+	if !pb.IsEmptySnapshot(rec) && !rec.Dummy && !rec.Witness {
+		if !foundRecorded {
+			s.ctx.Violate("C16", "recorded-snapshot-missing", "replica %d: the log store records snapshot %d but its directory is not on disk", h.replicaID, rec.Index)
+			return
+		}
+		st, err := mem.Stat(rec.Filepath)
+		if err != nil {
+			s.ctx.Violate("C16", "recorded-snapshot-missing", "replica %d: snapshot file %s of the recorded snapshot %d is missing", h.replicaID, rec.Filepath, rec.Index)
+		} else if st.Size() == 0 {
+			s.ctx.Violate("C16", "recorded-snapshot-invalid", "replica %d: snapshot file of recorded snapshot %d is empty", h.replicaID, rec.Index)
+		} else if rec.FileSize > 0 && s.cfg.SMKind != KindOnDisk && uint64(st.Size()) != rec.FileSize {
+			s.ctx.Violate("C16", "recorded-snapshot-invalid", "replica %d: snapshot file of recorded snapshot %d has size %d, recorded %d", h.replicaID, rec.Index, st.Size(), rec.FileSize)
+		}
+		s.ctx.Count("probe.recorded_snapshot_verified", 1)
+	}
 }
